@@ -55,7 +55,7 @@ INVARIANT DistinctIds
 # all interleavings (paths), not only distinct states: no VIEW for the emitting run
 CFG_EMIT = CFG.replace('VIEW view\n', '') + 'INVARIANT Emit\n'
 
-KINDS = ['section', 'theorem', 'item', 'figure', 'subsection', 'table', 'equation', 'eqrow']
+KINDS = ['section', 'theorem', 'item', 'figure', 'subsection', 'table', 'equation', 'eqrow', 'subsubsection']   # the last one is below sec-num-depth: unnumbered, still a label target
 
 
 def concretise(beh, salt):
@@ -101,7 +101,7 @@ def concretise(beh, salt):
             take = len(inner) if kind in ('figure', 'table') else 1
             inside = ''.join(ev_src(x) for x in inner[:take])
             consumed = take
-        if kind in ('section', 'subsection'):
+        if kind in ('section', 'subsection', 'subsubsection'):
             out.append('\\%s{Title %d%s}' % (kind, oi, inside))
         elif kind == 'theorem':
             out.append(r'\begin{tha}%s Statement %d. ' % ('[Name %d%s]' % (oi, inside) if inside else '', oi))
@@ -132,7 +132,7 @@ def numbered_objects(doc):
 
     def walk(node):
         name = getattr(node, 'nodeName', None)
-        if name in ('section', 'subsection', 'equation', 'thmenv', 'item', 'caption'):
+        if name in ('section', 'subsection', 'subsubsection', 'equation', 'thmenv', 'item', 'caption'):
             out.append(node)
         elif isinstance(node, Array.ArrayRow) and getattr(node.parentNode, 'nodeName', None) == 'eqnarray':
             if node.ref is not None:
@@ -189,6 +189,8 @@ def replay_one(args):
                 return 'resolve', 'reference %s to label %s points to %s, the label names object %d, in\n%s' % (
                     r, beh['reflabel'][r], ('object %d' % which) if which else 'no numbered object (%r)' % getattr(got, 'id', got), want['o'], src)
             tgt = objs[want['o'] - 1]
+            if tgt.nodeName == 'subsubsection' and tgt.ref is None:
+                continue        # a unit below sec-num-depth has no number to show; the reference names it all the same
             if got.ref is None or tgt.ref is None or str(got.ref.textContent) != str(tgt.ref.textContent):
                 return 'number', 'reference %s shows %r, its target is numbered %r, in\n%s' % (r, got.ref, tgt.ref, src)
         else:
